@@ -27,10 +27,13 @@ Fixpoint wl_rem (l : list Z) (workers : nat) (r : Z) (i : nat) (n : nat) : list 
   | S n' => wl_rem (upd l (workers - i)%nat (fun v => v + (r - Z.of_nat i))) workers r (S i) n'
   end.
 
-Definition workload (workers tasks : nat) : list Z :=
+Definition workload_list (workers tasks : nat) : list Z :=
   let q := Z.of_nat tasks / Z.of_nat workers in
   let r := Z.of_nat tasks mod Z.of_nat workers in
   wl_rem (wl_base q 0 workers) workers r 0 (Z.to_nat r).
+(** `if(workers == 0)`: diagnostic and std::exit *)
+Definition workload (workers tasks : nat) : res (list Z) :=
+  match workers with O => Exit | S _ => Ok (workload_list workers tasks) end.
 
 (** ** Range(min, max, stepsize); fuel = an upper bound on the iterations; [None] = the C++ loop
     does not terminate (ascending loop with a non-positive step). *)
@@ -79,11 +82,11 @@ Definition sub_list (v : list A) (i1 i2 : Z) : list A :=
   else let i2 := if i2 >=? n then n - 1 else i2 in
        firstn (Z.to_nat (i2 - i1 + 1)) (skipn (Z.to_nat i1) v).
 
-(** Transpose_Lists: lists[0] of an empty list of lists is out of bounds in the C++ code. *)
+(** Transpose_Lists: an empty list of lists is returned as an empty list (`if(lists.empty()) return {}`). *)
 Definition column (d : A) (lists : list (list A)) (j : nat) : list A := map (fun l => nth j l d) lists.
 Definition transpose_lists (d : A) (lists : list (list A)) : res (list (list A)) :=
   match lists with
-  | [] => OOB
+  | [] => Ok []
   | l0 :: rest =>
       let m := length l0 in
       if forallb (fun l => Nat.eqb (length l) m) rest
@@ -127,11 +130,12 @@ Fixpoint is_sorted (l : list T) : bool :=
 Fixpoint upper_bound (l : list T) (t : T) : nat :=
   match l with [] => 0%nat | a :: r => if nltb Ops t a then 0%nat else S (upper_bound r t) end.
 Definition closest_location (l : list T) (t : T) : res Z :=
-  if negb (is_sorted l) then Exit
+  if Nat.eqb (length l) 0 then Exit              (* "The list is empty." *)
+  else if negb (is_sorted l) then Exit           (* "The list is not sorted." *)
   else
     let n := length l in
     let idx := upper_bound l t in
-    if Nat.eqb idx n then Ok (Z.of_nat n - 1)   (* size()-1 in unsigned arithmetic; n = 0 wraps *)
+    if Nat.eqb idx n then Ok (Z.of_nat n - 1)
     else if Nat.eqb idx 0 then Ok 0
     else
       let d1 := nabs Ops (nth0 Ops l (idx - 1) - t)%num in
